@@ -29,6 +29,8 @@ def small_families(tier):
     c, d = gen2.family_arith(tier, part="risky")
     out.append(("arith-div", c, d))
     out.append(("agg", gen2.family_agg(tier), q))
+    c, d = gen2.family_agg3(tier)
+    out.append(("agg3", c, d))
     c, d = gen2.family_aggtyped(tier)
     out.append(("aggtyped", c, d))
     out.append(("rec", gen2.family_rec(tier), q))
